@@ -496,7 +496,9 @@ def distVerdict (impl : Option (List String)) : String :=
                  && (a.probs.zip b.probs).all (fun p => closeHex scale p.1 p.2) then "ok"
               else if sameParams a b then "FAIL:dist_values" else "FAIL:dist_values_rounded"
       | _, _ => "FAIL:parse"
-    | _ => "-"                                                    -- could not be built / written
+    | [["write:exc:bpp"]] => "FAIL:dist_writes"                    -- the writer raised on a distribution that exists
+    | _ => "-"                                                    -- `build:exc:bpp`: the generator asked for a
+                                                                  -- distribution its constructor refuses
 
 def stepRT (s : Unit) (op : List String) (impl : Option (List String)) : Unit × String × String :=
   match op with
